@@ -13,13 +13,13 @@ verify)
   trap 'git -C /repo worktree remove --force "$wt" >/dev/null 2>&1; rm -rf "$wt"' EXIT
   cp "$dir/zz_demo_test.go" "$wt/"
   pkg="."
-  (cd "$wt" && timeout 600 go test -vet=off -count=1 -run 'TestDemo' $pkg > "$wt/.demo0.log" 2>&1); d0=$?
+  (cd "$wt" && timeout 600 go test -vet=off -count=1 -run 'Demo' $pkg > "$wt/.demo0.log" 2>&1); d0=$?
   rm "$wt/zz_demo_test.go"
   (cd "$wt" && git apply --recount "$dir/patch.diff") || { echo "VERIFY patch does not apply"; exit 1; }
   (cd "$wt" && go build ./... && go build -tags verif ./...) > "$wt/.build.log" 2>&1; b=$?
   (cd "$wt" && timeout 900 go test -vet=off -count=1 ./... > "$wt/.suite.log" 2>&1); s=$?
   cp "$dir/zz_demo_test.go" "$wt/"
-  (cd "$wt" && timeout 600 go test -vet=off -count=1 -run 'TestDemo' $pkg > "$wt/.demo1.log" 2>&1); d1=$?
+  (cd "$wt" && timeout 600 go test -vet=off -count=1 -run 'Demo' $pkg > "$wt/.demo1.log" 2>&1); d1=$?
   echo "VERIFY $(basename $(dirname $dir))/$(basename $dir): demo-unpatched=$d0 build=$b suite=$s demo-patched=$d1"
   if [ $d0 -eq 0 ] && [ $b -eq 0 ] && [ $s -eq 0 ] && [ $d1 -ne 0 ]; then echo "VERIFY OK"; exit 0; fi
   tail -5 "$wt/.demo0.log" "$wt/.build.log" "$wt/.suite.log" "$wt/.demo1.log" | head -60
